@@ -144,7 +144,11 @@ def numbered : List PToken → Nat → List PToken
   | [], _ => []
   | t :: rest, k => { t with col := k } :: numbered rest (k + 1)
 
-/-- the fragment claim for the transliterated parser (NOT proved end to end): on `atom (ws? binop ws? atom)*` over binary
+/-- the fragment claim INCLUDING acceptance (`parse` returns `ok`) — not proved in this form.  What IS proved, for all token
+    lists `value (trivia* binop trivia* value)*` without length bound, is the conditional form "whenever `parse` accepts,
+    the node array is a proper tree and it is the reference tree": `Garnish.Props.C02Parse.C02_parse_correct_fragment`
+    (Garnish/Props/C02Parse.lean).  Original note:
+    the fragment claim for the transliterated parser (NOT proved end to end): on `atom (ws? binop ws? atom)*` over binary
     operators of any priorities, `parse` accepts, the result is a proper tree and it is the reference tree.
     Proved pieces (Garnish/Lemmas/ParserInv.lean): `walkLoop_chain` (on a parent chain the capped walk of `parse_token`
     never hits its cap and returns exactly the bottom-up search `walkSpec` that `Spec.absorb` performs),
